@@ -222,6 +222,7 @@ func eval(c *rig.Ctx, cs Case) (verdict, Observed, modelOut) {
 	}
 	var obs Observed
 	if cs.Before != "" {
+		history = append(history, cs.Before)
 		ready, problem := gw.lifecycle(cs.Before)
 		if !ready {
 			return verdict{kind: "inconclusive", what: "after " + cs.Before + ": " + problem}, obs, modelOut{}
@@ -413,17 +414,57 @@ func shrink(c *rig.Ctx, cs Case, v verdict) Case {
 			cs = x
 		}
 	}
-	if cs.Before != "" {
-		x := cs
-		x.Before = ""
-		if fails(x) {
-			cs = x
-		}
-	}
 	return cs
 }
 
 var reported = map[string]bool{}
+
+// events of the endpoint's life played so far in this process (most recent last): a failure may be due to one of them
+var history []string
+
+// selfContained makes the recorded case reproduce in a FRESH process: it is re-run on a fresh gateway, first without any
+// lifecycle event, then preceded by each event this process has played (most recent first).
+func selfContained(c *rig.Ctx, cs Case, v verdict) Case {
+	if len(history) == 0 && cs.Before == "" {
+		return cs
+	}
+	old := gw
+	defer func() { gw = old }()
+	try := func(x Case) bool {
+		g, err := newGateway()
+		if err != nil {
+			return false
+		}
+		gw = g
+		defer g.close()
+		w, _, _ := eval(c, x)
+		return sameFailure(v, w)
+	}
+	x := cs
+	x.Before = ""
+	if try(x) {
+		return x
+	}
+	seen := map[string]bool{}
+	cands := []string{}
+	if cs.Before != "" {
+		cands = append(cands, cs.Before)
+	}
+	for i := len(history) - 1; i >= 0; i-- {
+		cands = append(cands, history[i])
+	}
+	for _, op := range cands {
+		if seen[op] {
+			continue
+		}
+		seen[op] = true
+		x.Before = op
+		if try(x) {
+			return x
+		}
+	}
+	return cs
+}
 
 // judge failures and correspondence differences recorded so far: differences are recorded a few times only (the search for an
 // input on which the PROPERTY fails goes on), judge failures stop the run after a few witnesses
@@ -504,6 +545,10 @@ func runCase(c *rig.Ctx, cs Case, origin string) bool {
 	w, _, _ := eval(c, small)
 	if !sameFailure(v, w) {
 		small, w = cs, v
+	}
+	small = selfContained(c, small, w)
+	if small.Before != "" && !strings.Contains(w.what, "before the request") {
+		w.what += "; before the request (needed to reproduce in a fresh process): " + small.Before
 	}
 	c.Fail(rig.Failure{Kind: w.kind, Class: w.class, What: w.what, Case: small, Impl: w.impl, Model: w.model})
 	return false
